@@ -135,6 +135,22 @@ def run(ctx):
                 b[256 + 6] = (b[256 + 6] & 0xF0) | bits
                 for cmd in (['cat'], ['info', '*.*'], ['free']):
                     raw_cases.append(('b%d%s' % (bits, ext2), bytes(b), ['--file', '@b%d%s' % (bits, ext2)] + cmd, 'format-bits', ext2))
+        if ext2 in ('.ssd', '.sdd', '.dsd'):
+            # conflicting markers: the HDFS bit together with an invalid first catalogue and/or the Watford recognition bytes
+            for bits in (8, 12, 0, 4):
+                for (count, aa, tot_hi) in ((0x0B, True, None), (0xF9, True, None), (None, True, 0), (0x08, True, None), (0x0B, False, None), (None, True, None)):
+                    b = bytearray(bdata2)
+                    b[256 + 6] = (b[256 + 6] & 0xF0) | bits
+                    if count is not None:
+                        b[256 + 5] = count
+                    if tot_hi is not None:
+                        b[256 + 6] &= 0xFC
+                        b[256 + 7] = 1
+                    if aa:
+                        b[512:520] = b'\xAA' * 8
+                    nm = 'k%d_%s_%d_%s%s' % (bits, count, aa, tot_hi, ext2)
+                    for cmd in (['cat'], ['info', '*.*'], ['sector-map'], ['free']):
+                        raw_cases.append((nm, bytes(b), ['--file', '@' + nm] + cmd, 'conflicting-markers', ext2))
         if ext2 == '.hfe':
             for (off, vals) in ((9, [0, 1, 255]), (10, [0, 2, 3, 255]), (11, [1, 3, 4, 0xFF]), (22, [0, 1]), (23, [0, 1, 2, 3, 0xFF]), (8, [1, 255]), (18, [0, 0xFF]), (19, [0xFF])):
                 for v in vals:
